@@ -673,9 +673,12 @@ class _Exporter:
             return text
         return ""
 
-    def _default_opset_argument(self, opsets: dict[str, int], prefix: str = "") -> str:
-        """The default_opset argument of @script, needed when operators (x + y) replace op calls."""
-        if self.use_operators and "" in opsets:
+    def _default_opset_argument(
+        self, opsets: dict[str, int], prefix: str = "", force: bool = False
+    ) -> str:
+        """The default_opset argument of @script, needed when operators (x + y) replace op calls
+        and (force) when the body contains no call of an operator at all."""
+        if (self.use_operators or force) and "" in opsets:
             return f"{prefix}default_opset={self._make_opset_name('', opsets[''])}"
         return ""
 
@@ -764,6 +767,7 @@ class _Exporter:
         else:
             indent_level = 1
             indent = ""
+        decorator_index = len(result)
         add(f"{indent}@script({self._default_opset_argument(opsets)})")
         def_index = len(result)
         def_indent = indent
@@ -774,7 +778,14 @@ class _Exporter:
             add(f'{indent}"""{doc}"""')
         # As for functions: a scope for the name remappings that undo SSA renaming in loops
         self._name_remappings.append({})
-        add(self._translate_graph_body(graph, opsets, indent=indent_level))
+        body = self._translate_graph_body(graph, opsets, indent=indent_level)
+        add(body)
+        if "" in opsets and f"{self._make_opset_name('', opsets[''])}." not in body:
+            # A body without any operator call (e.g. a graph that only returns an input through
+            # Identity): the script decorator then needs a default_opset.
+            result[decorator_index] = (
+                f"{def_indent}@script({self._default_opset_argument(opsets, force=True)})"
+            )
         return_values = ", ".join(self._translate_onnx_var(x) for x in graph.output)
         add(f"{indent}return {return_values}")
         self._name_remappings.pop()
